@@ -25,13 +25,22 @@ type (
 		Kind token.Token // INT FLOAT STRING CHAR
 		Val  string
 	}
-	SBin  struct{ Op string; L, R SExpr }
-	SUn   struct{ Op string; X SExpr }
+	SBin struct {
+		Op   string
+		L, R SExpr
+	}
+	SUn struct {
+		Op string
+		X  SExpr
+	}
 	SCall struct {
 		Fun  string
 		Args []SExpr
 	}
-	SSel    struct{ X SExpr; Name string }
+	SSel struct {
+		X    SExpr
+		Name string
+	}
 	SIndex  struct{ X, I SExpr }
 	SSlice  struct{ X, Lo, Hi SExpr }
 	SAssert struct {
